@@ -41,6 +41,7 @@ pub struct Swarm {
     pub cross_alias: u32, // per-mille chance that an alias refers to a previous document's anchor
     pub long_scalar: u32, // per-mille chance of capacity-sized words
     pub deep: u32,        // per-mille chance of a deep-nesting text (W7)
+    pub many: u32,        // per-mille chance of a many-things text (W9)
 }
 
 impl Swarm {
@@ -64,6 +65,7 @@ impl Swarm {
             cross_alias: *r.pick(&[0, 100, 300, 700]),
             long_scalar: *r.pick(&[0, 30, 100, 300]),
             deep: *r.pick(&[0, 2, 10, 40]),
+            many: *r.pick(&[0, 2, 5, 20]),
         }
     }
 }
@@ -168,6 +170,57 @@ pub fn w5_nth(mut i: u64) -> String {
     }
 }
 
+/// One representative character for every possible UTF-8 lead byte (0xC2..=0xF4): byte-level
+/// fast paths that cast the first byte of a multi-byte character to `char` can misfire for a
+/// particular lead byte only, so "some non-ASCII character" is not enough.
+pub fn lead_byte_char(k: usize) -> char {
+    let lead = 0xC2u32 + (k as u32 % 51);
+    let cp = if lead < 0xE0 {
+        ((lead & 0x1F) << 6) | 0x12
+    } else if lead < 0xF0 {
+        let c = ((lead & 0x0F) << 12) | 0x0892;
+        if lead == 0xE0 { 0x0892 } else if lead == 0xED { 0xD592 } else { c }
+    } else {
+        let c = ((lead & 0x07) << 18) | 0x12345 & 0x3FFFF;
+        if lead == 0xF0 { 0x12345 } else if lead == 0xF4 { 0x10_0345 } else { c | 0x345 }
+    };
+    char::from_u32(cp).unwrap_or('\u{e9}')
+}
+
+/// Contexts (what precedes) x followers (the next character) x suffixes, enumerated completely:
+/// every scanner state in which the next character is classified by a byte-level or char-level
+/// predicate, followed by every class of character.
+pub const CONTEXTS: [&str; 44] = [
+    "", "a", "a ", "- ", "? ", "a:", "a: ", "[", "[a", "[a,", "[ ", "{", "{a", "{a:", "{a: ", "!t", "[!t", "{!t", "- !t", "!!str", "[!<x>",
+    "&a", "[&a", "*a", "[*a", "- &a", "\"a", "'a", "[\"a\"", "#", "a #", "|", ">", "|2", "a: |", "%YAML 1.", "%YAML 1", "%TAG !e", "%TAG !e! t", "%F",
+    "---", "...", "a\n", "- a\n ",
+];
+pub const FOLLOW_ASCII: [char; 34] = [
+    'a', 'Z', '0', '9', ' ', '\t', '\n', '\r', '\0', '-', '.', ':', '?', ',', '[', ']', '{', '}', '#', '&', '*', '!', '|', '>', '\'', '"', '%', '@', '`',
+    '\\', '_', '~', '/', '\u{7f}',
+];
+pub const SUFFIXES: [&str; 5] = ["", "]", " x", "\n", "}: b\n"];
+
+pub fn count_context_cases() -> u64 {
+    (CONTEXTS.len() * (FOLLOW_ASCII.len() + 51 + 4) * SUFFIXES.len()) as u64
+}
+
+pub fn nth_context_case(i: u64) -> String {
+    let nf = (FOLLOW_ASCII.len() + 51 + 4) as u64;
+    let suf = SUFFIXES[(i % SUFFIXES.len() as u64) as usize];
+    let j = i / SUFFIXES.len() as u64;
+    let f = (j % nf) as usize;
+    let ctx = CONTEXTS[((j / nf) % CONTEXTS.len() as u64) as usize];
+    let follower = if f < FOLLOW_ASCII.len() {
+        FOLLOW_ASCII[f]
+    } else if f < FOLLOW_ASCII.len() + 51 {
+        lead_byte_char(f - FOLLOW_ASCII.len())
+    } else {
+        ['\u{85}', '\u{a0}', '\u{2028}', '\u{feff}'][f - FOLLOW_ASCII.len() - 51]
+    };
+    format!("{ctx}{follower}{suf}")
+}
+
 pub struct Gen<'a> {
     pub r: SplitMix64,
     pub corpus: &'a Corpus,
@@ -208,6 +261,11 @@ impl<'a> Gen<'a> {
             truncate_chars(&mut t, 8192);
             return ("W7-deepnest", t);
         }
+        if self.r.below(1000) < u64::from(self.sw.many) {
+            let mut t = self.many_things();
+            truncate_chars(&mut t, 8192);
+            return ("W9-many", t);
+        }
         let total: u32 = self.sw.w.iter().sum();
         let mut k = self.r.below(u64::from(total)) as u32;
         let mut which = 0;
@@ -233,6 +291,74 @@ impl<'a> Gen<'a> {
         };
         truncate_chars(&mut t, 8192);
         (name, t)
+    }
+
+    /// W9: a count of things (distinct anchors, re-registered anchors, tags, documents, keys,
+    /// directives) that reaches the hundreds, around the growth steps of the tables that hold them
+    /// (a std HashMap grows at 3, 7, 14, 28, 56, 112, 224, 448 entries), followed by more documents
+    /// that use the same kind of thing again.
+    pub fn many_things(&mut self) -> String {
+        let n = *self.r.pick(&[7usize, 8, 14, 15, 28, 29, 56, 57, 100, 112, 113, 114, 224, 225, 300, 449]);
+        let mut s = String::new();
+        let kind = self.r.below(6);
+        let flow = self.r.chance(1, 3);
+        let explicit_end = self.r.chance(1, 2);
+        match kind {
+            0 | 1 => {
+                // n distinct anchors in one document, then documents that define and use anchors again
+                if flow {
+                    s.push('[');
+                }
+                for k in 0..n {
+                    if flow {
+                        s.push_str(&format!("&n{k} x, "));
+                    } else {
+                        s.push_str(&format!("- &n{k} x\n"));
+                    }
+                }
+                if flow {
+                    s.push_str("z]\n");
+                }
+                if kind == 1 {
+                    s.push_str(&format!("{}*n{}\n", if flow { "--- " } else { "- " }, self.r.usize(n)));
+                }
+                let more = 1 + self.r.usize(3);
+                for d in 0..more {
+                    if explicit_end {
+                        s.push_str("...\n");
+                    }
+                    s.push_str(&format!("---\n- &m{d} a\n- *m{d}\n- &k{d} [b]\n- *k{d}\n"));
+                }
+            }
+            2 => {
+                // the same name re-registered n times
+                for _ in 0..n {
+                    s.push_str("- &r x\n- *r\n");
+                }
+                s.push_str("--- &r y\n--- *r\n");
+            }
+            3 => {
+                // n documents
+                for k in 0..n.min(300) {
+                    s.push_str(if k % 3 == 0 { "--- &a x\n" } else if k % 3 == 1 { "--- !t y\n...\n" } else { "---\n" });
+                }
+            }
+            4 => {
+                // n tagged nodes / keys
+                for k in 0..n {
+                    s.push_str(&format!("k{k}: !t{k} v\n"));
+                }
+                s.push_str("--- !t0 x\n");
+            }
+            _ => {
+                // n directives (an error after the first duplicate, but the scanner sees them all)
+                for k in 0..n.min(120) {
+                    s.push_str(&format!("%TAG !h{k}! tag:x,{k}:\n"));
+                }
+                s.push_str("--- !h1!a b\n...\n%TAG !h1! other:\n--- !h1!a c\n");
+            }
+        }
+        s
     }
 
     /// W7: nesting around the limits that matter (the u8 flow-level counter, a few hundred
@@ -302,7 +428,13 @@ impl<'a> Gen<'a> {
             6 => '\n',
             7 => *self.r.pick(&['"', '\'', '\\', '%', '@', '`', '\t', '\r', '.', '~', '\0', '\u{feff}', '\u{85}']),
             8 => *self.r.pick(&['a', 'b', '0', '1', 'x', 'e']),
-            _ => self.r.pick(&NONASCII).chars().next().unwrap(),
+            _ => {
+                if self.r.chance(1, 2) {
+                    self.r.pick(&NONASCII).chars().next().unwrap()
+                } else {
+                    lead_byte_char(self.r.usize(51))
+                }
+            }
         }
     }
 
@@ -515,7 +647,11 @@ impl<'a> Gen<'a> {
             let mut s = String::new();
             let k = 1 + self.r.usize(3);
             for _ in 0..k {
-                s.push_str(*self.r.pick(&NONASCII));
+                if self.r.chance(1, 3) {
+                    s.push(lead_byte_char(self.r.usize(51)));
+                } else {
+                    s.push_str(*self.r.pick(&NONASCII));
+                }
                 if self.r.chance(1, 2) {
                     s.push_str(*self.r.pick(&WORDS));
                 }
